@@ -446,3 +446,32 @@ func Apply(evs []Ev, v structform.Visitor) (int, error) {
 	}
 	return len(evs), nil
 }
+
+// ApplyScribble is Apply for a producer that reuses ONE buffer for every
+// by-reference payload (the same address each time, as a parser's literal
+// buffer or a refilled read buffer) and overwrites it as soon as the callback
+// returns: by-reference bytes are only valid during the callback.
+func ApplyScribble(evs []Ev, v structform.Visitor) (int, error) {
+	ev := structform.EnsureExtVisitor(v)
+	scratch := make([]byte, 0, 256)
+	for i, e := range evs {
+		var err error
+		switch e.K {
+		case KKeyRef:
+			scratch = append(scratch[:0], e.S...)
+			err = ev.OnKeyRef(scratch)
+		case KStrRef:
+			scratch = append(scratch[:0], e.S...)
+			err = ev.OnStringRef(scratch)
+		default:
+			err = ApplyOne(e, ev)
+		}
+		for j := range scratch {
+			scratch[j] = 'X'
+		}
+		if err != nil {
+			return i, err
+		}
+	}
+	return len(evs), nil
+}
